@@ -192,7 +192,9 @@ class Packet(_with_metaclass(bisturi.packet_builder.MetaPacket, object)):
             return False
 
         for name, f, pack, _ in self.get_fields():
-            if getattr(self, name) != getattr(other, name):
+            # positioning pseudo-fields (at/shift/aligned) and Em placeholders
+            # hold no value: they never get a slot assigned
+            if getattr(self, name, None) != getattr(other, name, None):
                 return False
 
         return True
@@ -208,6 +210,9 @@ class Packet(_with_metaclass(bisturi.packet_builder.MetaPacket, object)):
     def __repr__(self):
         msg = [f'{self.__class__.__name__}:']
         for name, f, _, _ in self.get_fields():
+            if not hasattr(self, name):
+                # pseudo-field without a value (at/shift/aligned, Em)
+                continue
             msg.append(f'  {name}: {getattr(self, name)}')
 
         return '\n'.join(msg)
